@@ -932,7 +932,7 @@ F18_CHOICES = [0, 0, 0, 0, 2, 2, 1, 1, 1, 0, 0, 0, 0, 0, 0, 0, 0, 0, 0, 0, 0, 0,
 
 class BufScenario(Scenario):
     def __init__(self, reqs, cuts=(), send_plan=(), lookahead=0, n_workers=1, send_bytes=1, sndbuf=1 << 16,
-                 eof=False, max_steps=2500, strbuf_limit=64, overflow=200, high_watermark=16777216, granularity="locks"):
+                 eof=False, max_steps=40000, strbuf_limit=64, overflow=200, high_watermark=16777216, granularity="locks"):
         Scenario.__init__(self, reqs, cuts, send_plan, lookahead, n_workers, send_bytes, sndbuf, eof, max_steps)
         self.strbuf_limit = strbuf_limit
         self.overflow = overflow
@@ -949,22 +949,88 @@ class BufScenario(Scenario):
     def from_json(d):
         b = d["buf"]
         return BufScenario([Req.from_json(r) for r in d["reqs"]], d["cuts"], d["send_plan"], d["lookahead"], d["n_workers"],
-                           d["send_bytes"], d["sndbuf"], d["eof"], d.get("max_steps", 2500), b["strbuf_limit"], b["overflow"],
+                           d["send_bytes"], d["sndbuf"], d["eof"], max(40000, d.get("max_steps", 40000)), b["strbuf_limit"], b["overflow"],
                            b["high_watermark"], b.get("granularity", "locks"))
 
 
 class FairPolicy:
-    """The I/O thread busy-polls while a worker holds outbuf_lock or while the kernel accepts nothing; a
-    policy that keeps preferring it never lets anybody else run (an unfair schedule, never quiescent).
+    """The I/O thread busy-polls while a worker holds outbuf_lock, while the kernel accepts nothing, or while
+    0 < total_outbufs_len < send_bytes with a request in service (writable() is true, handle_write does not
+    flush); a policy that keeps preferring it never lets anybody else run (an unfair schedule, never quiescent).
     Lets the inner policy decide unless the chosen thread went through `spin` select() calls in a row
     with nobody else running in between although somebody else is enabled: then the next enabled thread
-    runs one step.  The decisions are recorded in Scheduler.choices as always: replay is exact."""
+    runs one step.  The decisions are recorded in Scheduler.choices as always: replay is exact.
 
-    def __init__(self, inner=None, spin=3):
+    STALL VERDICT.  A raw step budget is not evidence of a stall (a trickling socket under a schedule that
+    favours the polling I/O thread legitimately needs thousands of steps).  When `world` is set (a PipeWorld
+    with snapshots) the policy looks, every 64 decisions, at the last `window` scheduled operations and
+    declares a stall only if ALL of the following hold over that window:
+      * the abstract state (requests, total_outbufs_len, every buffer length, connected / will_close /
+        close_when_flushed, dispatcher queue, bytes on the wire) did not change,
+      * no progress event was recorded (wire, recv, app_call, service_start/_end, write_soon, send_continue,
+        add_task, close, map_del, a client step, a condition wait/wake),
+      * the I/O thread completed at least `rounds` full poll rounds (select() calls),
+      * every thread that is runnable now was scheduled at least `rounds` times (so nobody who could change
+        the state was starved).
+    It then records the justification in world.stall and ends the run (Scheduler.max_steps := now).  A run that
+    exhausts max_steps WITHOUT this justification is `inconclusive`, counted, and not a violation."""
+
+    PROGRESS = frozenset({"wire", "recv", "app_call", "service_start", "service_end", "write_soon", "send_continue", "add_task",
+                          "close", "map_del", "decide", "client:send", "client:close", "client:stall", "client:resume",
+                          "client:wait_wire", "wait", "wake", "reacquire", "thread_start", "begin", "end", "crash"})
+
+    def __init__(self, inner=None, spin=3, window=900, rounds=12):
         self.inner = inner
         self.spin = spin
+        self.world = None
+        self.window = window
+        self.rounds = rounds
+
+    @staticmethod
+    def _sig(snap):
+        return None if snap is None else (snap["rq"], snap["tot"], tuple(snap["obs"]), snap["conn"], snap["wc"], snap["cwf"],
+                                          snap["q"], snap["wire"])
+
+    def check_stall(self, sched, enabled):
+        w = self.world
+        idx = sorted(sched.snaps)            # event indices of the scheduled operations
+        if len(idx) < self.window:
+            return None
+        first = idx[-self.window]
+        ev = sched.events
+        sig0 = self._sig(sched.snaps[first])
+        if sig0 is None or self._sig(w.snapshot()) != sig0:
+            return None
+        per_thread = {}
+        selects = 0
+        for k in range(first, len(ev)):
+            th, kind, _ = ev[k]
+            if kind in self.PROGRESS:
+                return None
+            if k in sched.snaps:
+                if self._sig(sched.snaps[k]) != sig0:
+                    return None
+                per_thread[th] = per_thread.get(th, 0) + 1
+                if kind == "select":
+                    selects += 1
+        if selects < self.rounds:
+            return None
+        for t in enabled:
+            if per_thread.get(t.name, 0) < self.rounds:
+                return None
+        return {"window_operations": self.window, "io_poll_rounds_in_window": selects,
+                "operations_per_thread_in_window": per_thread, "runnable_now": [t.name for t in enabled],
+                "blocked_now": [list(map(str, b)) for b in sched.blocked() if b[0] not in [t.name for t in enabled]],
+                "unchanged_state": {"requests": sig0[0], "total_outbufs_len": sig0[1], "outbuf_lengths": list(sig0[2]), "connected": sig0[3],
+                                    "will_close": sig0[4], "close_when_flushed": sig0[5], "queue": sig0[6], "wire_bytes": sig0[7]},
+                "at_step": sched.step_no}
 
     def __call__(self, sched, enabled, cont):
+        if self.world is not None and sched.step_no % 64 == 0 and getattr(self.world, "stall", None) is None and sched.snaps:
+            st = self.check_stall(sched, enabled)
+            if st is not None:
+                self.world.stall = st
+                sched.max_steps = sched.step_no      # Scheduler.run stops before the next operation
         idx = (cont if cont is not None else 0) if self.inner is None else self.inner(sched, enabled, cont) % len(enabled)
         if len(enabled) > 1:
             name = enabled[idx].name
@@ -980,6 +1046,20 @@ class FairPolicy:
         return idx
 
 
+def stall_verdict(world):
+    """-> (key, text) for a JUSTIFIED stall, ("inconclusive", text) when the step budget ran out without one, None otherwise."""
+    st = getattr(world, "stall", None)
+    if st is not None:
+        return ("stalled", "the connection is stalled: over the last %d scheduled operations (%d full poll rounds of the I/O thread, every "
+                "runnable thread %r scheduled at least %d times, blocked: %r) nothing changed: %r and no progress event; %d steps in"
+                % (st["window_operations"], st["io_poll_rounds_in_window"], st["runnable_now"],
+                   min([st["operations_per_thread_in_window"].get(t, 0) for t in st["runnable_now"]] or [0]), st["blocked_now"],
+                   st["unchanged_state"], st["at_step"]))
+    if world.verdict == "overrun":
+        return ("inconclusive", "step budget of %d exhausted without a justified stall (state still changing or a thread starved)" % world.scn.max_steps)
+    return None
+
+
 class BufWorld(PipeWorld):
     """PipeWorld with small buffer limits; records every change of representation of an output buffer
     (kind, read position of the old file, unread bytes) in self.migrations."""
@@ -987,6 +1067,8 @@ class BufWorld(PipeWorld):
     def __init__(self, scn, schedule=(), policy=None):
         PipeWorld.__init__(self, scn, schedule=schedule, policy=FairPolicy(policy), granularity=scn.granularity, snapshots=True)
         self.adj_kw.update({"outbuf_overflow": scn.overflow, "outbuf_high_watermark": scn.high_watermark})
+        self.stall = None
+        self.sched.policy.world = self
         self.migrations = []
         self.rotations = 0
 
@@ -1025,8 +1107,8 @@ class BufWorld(PipeWorld):
 
 def buf_monitor(world):
     """monitor() plus: the channel never calls send() with an empty chunk (a buffer that claims unsent bytes
-    but yields none has lost them), and a run that never becomes quiescent although the schedule is fair
-    and the client reads is a stalled connection."""
+    but yields none has lost them), and a JUSTIFIED stall (FairPolicy.check_stall: nothing changes over a
+    window in which every runnable thread ran; a bare step-budget overrun is inconclusive, not a violation)."""
     bad = monitor(world)
     ev = world.sched.events
     empty = [i for i, e in enumerate(ev) if e[1] == "sock_send" and e[2] == 0]
@@ -1034,8 +1116,9 @@ def buf_monitor(world):
         bad.append(("empty-send", "C04_wire: send() called %d times with an EMPTY chunk while total_outbufs_len > 0: an output buffer "
                     "reports unsent bytes that it cannot produce (bytes lost inside the buffer layer); %d bytes on the wire"
                     % (len(empty), len(world.wire))))
-    elif world.verdict == "overrun":
-        bad.append(("stalled", "the run did not become quiescent within %d steps under a fair schedule" % world.scn.max_steps))
+    sv = stall_verdict(world)
+    if sv is not None and sv[0] == "stalled":
+        bad.append(sv)
     return bad
 
 
@@ -1172,7 +1255,7 @@ class SReq:
 
 
 class SegScenario(Scenario):
-    def __init__(self, reqs, cuts=(), lookahead=0, n_workers=1, send_plan=(), eof=False, max_steps=12000, seg_kind="?"):
+    def __init__(self, reqs, cuts=(), lookahead=0, n_workers=1, send_plan=(), eof=False, max_steps=40000, seg_kind="?"):
         Scenario.__init__(self, reqs, cuts, send_plan, lookahead, n_workers, 1, 1 << 16, eof, max_steps)
         self.seg_kind = seg_kind
 
@@ -1187,7 +1270,7 @@ class SegScenario(Scenario):
     @staticmethod
     def from_json(d):
         return SegScenario([SReq.from_json(r) for r in d["reqs"]], d["cuts"], d["lookahead"], d["n_workers"], d["send_plan"],
-                           d["eof"], d.get("max_steps", 12000), d.get("seg", {}).get("kind", "?"))
+                           d["eof"], max(40000, d.get("max_steps", 40000)), d.get("seg", {}).get("kind", "?"))
 
     def final_crlf_cuts(self):
         """Cut positions that fall between the CR and the LF that end a chunked request which is followed by
@@ -1204,6 +1287,8 @@ class SegScenario(Scenario):
 class SegWorld(PipeWorld):
     def __init__(self, scn, schedule=(), policy=None, granularity="locks"):
         PipeWorld.__init__(self, scn, schedule=schedule, policy=FairPolicy(policy), granularity=granularity, snapshots=True)
+        self.stall = None
+        self.sched.policy.world = self
         self.calls = []
         world = self
 
@@ -1242,8 +1327,9 @@ def seg_monitor(world):
         bad.append(("foreign-request", "C04_once / never mixed: application call %d is %r; the client sent %r (all calls: %r)" % (
             k, got and [got[0], got[1], bytes.fromhex(got[2])], exp[k][:2] + [bytes.fromhex(exp[k][2])] if k < len(exp) else None,
             [c[:2] for c in world.calls])))
-    if world.verdict == "overrun":
-        bad.append(("stalled", "the run did not become quiescent within %d steps under a fair schedule" % scn.max_steps))
+    sv = stall_verdict(world)
+    if sv is not None and sv[0] == "stalled":
+        bad.append(sv)
     return bad
 
 
